@@ -347,6 +347,34 @@ theorem c07_textLoader_differs :
     (match load (fun x : Nat => x) (fun x : Nat => x) c with | .ok r => r.2.length | .error _ => 99) = 1 := by
   decide +kernel
 
+/-- `_persists_data_point_in_open_file` writes the total last: whatever position an adapter gave the
+total (the Multivariate adapter's counted data points put it anywhere), what goes to the file is the other
+measurements followed by the totals — for a data point with exactly one total the shape `DPOk` asks for -/
+theorem c07_written_total_last (ms : List Meas) (tot : Meas)
+    (h : ms.filter (fun m => m.crit = "total") = [tot]) :
+    ∃ init, totalLast ms = init ++ [tot] ∧ tot.crit = "total" ∧ ∀ m ∈ init, m.crit ≠ "total" := by
+  refine ⟨ms.filter (fun m => m.crit ≠ "total"), by simp [totalLast, h], ?_, ?_⟩
+  · have : tot ∈ ms.filter (fun m => m.crit = "total") := by rw [h]; simp
+    simpa using (List.mem_filter.mp this).2
+  · intro m hm
+    simpa using (List.mem_filter.mp hm).2
+
+def mvDP (inv : Nat) : DP :=
+  { inv := inv, it := 1, ms := [{ crit := "bar", unit := "ms", value := .flt (3 / 2) },
+                               { crit := "total", unit := "ms", value := .flt (5 / 2) },
+                               { crit := "baz", unit := "kbyte", value := .raw "3".toList }] }
+
+/-- why: written in the adapter's order (total in the middle), the line after the total opens a data
+point that the next invocation of the run runs into — the loader's `UIError`, on every later session
+(the defect repaired by `fix: a data point is written with its total as the last line`); written with the
+total last the same two invocations load -/
+theorem c07_total_in_the_middle_fails :
+    let w := fun (f : DP → DP) =>
+      (persist (fun k : Nat => k) 0 (f (mvDP 2)) (persist (fun k : Nat => k) 0 (f (mvDP 1)) (FP.ofTables [] emptyTables))).content
+    errOf (loadT (fun _ : Nat => []) (fun x => x) (fun x => x) (w id)) = some .mixedDataPoint ∧
+    errOf (loadT (fun _ : Nat => []) (fun x => x) (fun x => x) (w (fun d => { d with ms := totalLast d.ms }))) = none := by
+  decide +kernel
+
 /-- "its sample count … equal[s] that of the recording session" fails for a
 run contained in experiments with different data files: every file is loaded
 into the same run, so one recorded data point counts once per file -/
